@@ -103,6 +103,130 @@ def plain_programs(rng, n):
     return out
 
 
+# ---------------------------------------------------------------------------------------------------
+# T2(d): within-trial derived factors (Front/DerivedInput.v derived_input; driver command t2derived)
+
+def real_flat_or_error(program):
+    """flat wire of the real block | "(err ExcName)" when the constructor raises | "none" """
+    try:
+        with ir.quiet():
+            built = ir.build(program)
+            if built.errors:
+                main = ("block", program["main"])
+                if set(built.errors) == {main}:
+                    return "(err %s)" % built.errors[main][1]
+                return "none"
+            blk = ir.main_block(built, program)
+        if blk is None:
+            return "none"
+        return flatmod.flat_wire(blk)
+    except Exception:  # noqa: BLE001
+        return "none"
+
+
+def run_derived(programs):
+    lines, idx, out = [], [], [None] * len(programs)
+    for i, p in enumerate(programs):
+        try:
+            w = docsem_corr.program_wire(p)
+        except docsem_corr.NotAProgram:
+            out[i] = "notaprogram"
+            continue
+        lines.append("(t2derived %s %s)" % (w, real_flat_or_error(p)))
+        idx.append(i)
+    if lines:
+        for i, r in zip(idx, common.run_model(lines, domain="T2")):
+            out[i] = r
+    return out
+
+
+def compare_derived(programs, stats=None):
+    """-> list of (index, result_line) that break the tie on the derived fragment: the created flat record
+    (or the ValueError of an ambiguous derived level) differs from the real constructor's, anywhere in the
+    fragment; or code_sem and doc_sem are not sem_eqv_t on a program inside the Coq-evaluated guard."""
+    res = run_derived(programs)
+    bad = []
+    for i, r in enumerate(res):
+        if stats is not None:
+            stats[r] = stats.get(r, 0) + 1
+        if r.startswith("!") or "flat=diff" in r or "fails=diff" in r or ("sem=diff" in r and r.startswith("guard=true")):
+            bad.append((i, r))
+    return bad
+
+
+def derived_programs(rng, n):
+    """single CrossBlocks over simple factors and within-trial derived factors of them (the Stroop shape):
+    the derived factor crossed or not, constraints (Exclude, row kinds, Pin) on simple and derived levels,
+    weights, else levels, now and then a table that overlaps / leaves a tuple uncovered / has an empty level"""
+    import gen_design
+    out = []
+    while len(out) < n:
+        nb = rng.choice([2, 2, 2, 3])
+        factors = [gen_design.simple_factor(rng, i, weighted_p=rng.choice([0.0, 0.0, 0.3])) for i in range(nb)]
+        nd = rng.choice([1, 1, 1, 2])
+        for j in range(nd):
+            defect = rng.choice([None] * 10 + ["overlap", "uncovered"])
+            d = gen_design.derived_factor(rng, nb + j, factors[:nb], wtype="within", defect=defect)
+            if rng.random() < 0.08 and len(d["levels"]) > 1 and not d["levels"][0].get("else"):
+                # a level nothing matches: move its table to the next explicit level
+                tgt = [l for l in d["levels"][1:] if not l.get("else")]
+                if tgt:
+                    tgt[0]["table"] = tgt[0]["table"] + d["levels"][0]["table"]
+                    d["levels"][0]["table"] = []
+            factors.append(d)
+        fids = list(range(nb + nd))
+        design = list(fids)
+        if rng.random() < 0.15:
+            rng.shuffle(design)
+        if rng.random() < 0.1 and nd == 2:
+            design.remove(nb + 1)
+        ncr = rng.choice([1, 2, 2, 3])
+        cr = rng.sample(design, min(ncr, len(design)))
+        if rng.random() < 0.5:
+            # the Stroop shapes: the derived factor crossed with one of its arguments, or the basic factors only
+            cr = rng.choice([[0, 1], [nb], [0, nb], [nb, 1], list(range(nb))])
+        if rng.random() < 0.03:
+            cr = []
+        if rng.random() < 0.8:
+            # weights on crossed factors only (a weighted basic factor outside the crossing is desugared
+            # by the constructor, which create_flat does not model)
+            for f in factors[:nb]:
+                if f["id"] not in cr:
+                    f["levels"] = [[nm, 1] for nm, _ in f["levels"]]
+        cons = []
+        for _ in range(rng.choice([0, 1, 1, 2, 3])):
+            cons.append(gen_design.rand_constraint(rng, len(cons), factors, design, 4,
+                                                   kinds=["AtMostKInARow", "AtLeastKInARow", "ExactlyKInARow", "ExactlyK",
+                                                          "Exclude", "Exclude", "Exclude", "Pin", "AtMostKInARow-factor"]))
+        if rng.random() < 0.3:
+            cons.append({"id": len(cons), "kind": "MinimumTrials", "trials": rng.choice([1, 3, 5, 6, 7, 9, 13])})
+        out.append({"factors": factors, "constraints": cons,
+                    "blocks": [{"id": 0, "kind": "CrossBlock", "design": design, "crossing": cr,
+                                "constraints": [c["id"] for c in cons], "rcc": rng.random() < 0.5}], "main": 0})
+    return out
+
+
+def main_derived(argv):
+    import random
+    n = int(argv[2]) if len(argv) > 2 else 1500
+    seed = int(argv[3]) if len(argv) > 3 else 1
+    rng = random.Random(seed)
+    progs = derived_programs(rng, n)
+    res = run_derived(progs)
+    tally, examples = {}, {}
+    for q, r in zip(progs, res):
+        tally[r] = tally.get(r, 0) + 1
+        examples.setdefault(r, q)
+    print("programs: %d" % len(progs))
+    for k in sorted(tally, key=lambda k: -tally[k]):
+        print("%6d  %s" % (tally[k], k))
+    if "-v" in argv:
+        for k in sorted(tally):
+            if "diff" in k or k.startswith("!"):
+                print("--- %s\n%s" % (k, examples[k]))
+    return 0
+
+
 def main(argv):
     import random
     import gen_design
@@ -131,4 +255,4 @@ def main(argv):
 
 
 if __name__ == "__main__":
-    sys.exit(main(sys.argv))
+    sys.exit(main_derived(sys.argv) if len(sys.argv) > 1 and sys.argv[1] == "derived" else main(sys.argv))
